@@ -8,8 +8,11 @@ import (
 	"bufio"
 	"flag"
 	"fmt"
+	"io"
 	"os"
 	"strings"
+
+	"github.com/free5gc/nas/logger"
 )
 
 type opFunc func(args []string) string
@@ -25,6 +28,7 @@ type genFunc func(g *Gen, w *bufio.Writer)
 var gens = map[string]genFunc{}
 
 func main() {
+	logger.GetLogger().SetOutput(io.Discard) // the library logs through logrus; keep the protocol streams clean
 	if len(os.Args) < 2 {
 		fmt.Fprintln(os.Stderr, "usage: harness gen|run|oracle ...")
 		os.Exit(2)
